@@ -14,6 +14,7 @@ import (
 
 	"verif/harness/fw"
 	"verif/harness/oracle/bech32m"
+	"verif/harness/prop/bechscan"
 )
 
 const (
@@ -32,14 +33,15 @@ func init() {
 		Rule: "valid strings built by the model encoder (total lengths 90 down to 12, lower and upper case, human-readable parts with letters and digits). w1: every substitution of one character; w2: every substitution of two characters (one case per first position, all second positions and all replacement values inside); w34: seeded random patterns of 3 and 4 changed characters. " +
 			"A data-part character (checksum included) is replaced by every other charset character in the case of the string, a letter of the human-readable part by every other letter of the same case, a digit by every other digit. Every corrupted string goes through bech32.Decode; an acceptance is a violation. " +
 			"syndrome (one case, shard 0): sigma(j,v) = polymod(base xor e_{j,v}) xor polymod(base) is read from the real bech32Polymod (hook VerifPolymod) for every distance j = 0..88 from the end and every v = 1..31 on several random bases of lengths 89..178; independence of base and length and additivity on sampled patterns are monitored; all single and pair sums (and the empty sum) are sorted and searched for equal values: two different entries with the same value are an undetected error of weight <= 4; a hit is turned into a pair of concrete strings and confirmed through bech32.Encode/Decode before it is reported. " +
-			"Non-trivial: every w2, w34 and syndrome case (distinct (string, first position) resp. (string, pattern seed)).",
+			"concurrent: 8 goroutines call Decode at once on valid strings with related human-readable parts and on corrupted strings made of a related human-readable part (1..4 letters changed) and the data part of a valid string; every corrupted string must be rejected. acceptset: for one valid string the six checksum symbols are XORed with a 30-bit delta, which makes the checksum polymod 1^delta; Decode must reject every delta != 0: plausible constants (Bech32m, 0, small values, single bits) on every shard and 2^22-value chunks of all 2^30 values (one random chunk per shard in quick, all 256 chunks = exhaustive in thorough); an accepted delta is converted with the syndrome table into an error pattern of weight <= 4 and confirmed as a pair of strings. " +
+			"Non-trivial: every w2, w34, acceptset and syndrome case (distinct (string, first position) resp. (string, pattern seed)).",
 		Assumptions: []string{"the BIP-173 port in harness/oracle/bech32m builds the valid strings (self-tested against the vectors published in BIP-173); the library must accept them, otherwise that is reported",
 			"layer (c) judges the function the hook exposes; that Decode uses it is what the w1/w2/w34 layers observe"},
 		SelfTest: bech32m.SelfTest,
 		Gen:      gen,
 		Judge:    judge,
 		Render:   render,
-		Required: []string{cW1, cW2, cW34, cHRP, cTable, cAdditive, cMitm, "syndromes recorded (j, v)"},
+		Required: []string{"concurrent executions", "acceptance-set scan: targeted constants", "acceptance-set scan: 2^22 chunks", cW1, cW2, cW34, cHRP, cTable, cAdditive, cMitm, "syndromes recorded (j, v)"},
 	})
 }
 
@@ -48,6 +50,10 @@ func render(class string, key []byte) interface{} {
 	switch class {
 	case "syndrome":
 		return map[string]interface{}{"seed": fw.GetU64(p[0])}
+	case "concurrent":
+		return map[string]interface{}{"seed": fw.GetU64(p[0]), "scenario": "8 goroutines decode valid strings with related human-readable parts and corrupted strings (related hrp + data part of a valid string)"}
+	case "acceptset":
+		return map[string]interface{}{"base_string": bechscan.Base(fw.GetU64(p[0])), "mode": map[byte]string{0: "targeted constants", 1: "chunk of 2^22 checksum values"}[p[1][0]], "chunk": fw.GetU32(p[2])}
 	case "w1":
 		return map[string]interface{}{"string": string(p[0])}
 	case "w2":
@@ -132,6 +138,14 @@ func judge(class string, key []byte, o *fw.Obs) {
 	if class == "syndrome" {
 		o.Nontrivial()
 		syndromeLayer(int64(fw.GetU64(p[0])), o)
+		return
+	}
+	if class == "concurrent" {
+		judgeConcurrent(fw.GetU64(p[0]), o)
+		return
+	}
+	if class == "acceptset" {
+		judgeAcceptSet(fw.GetU64(p[0]), p[1][0], fw.GetU32(p[2]), o)
 		return
 	}
 	t := newTarget(string(p[0]), o)
@@ -569,6 +583,21 @@ func bases(seed int64, n int) []string {
 func gen(g *fw.Gen) {
 	if g.Shard == 0 {
 		g.Emit("syndrome", fw.Pack(fw.U64(uint64(g.Seed))))
+	}
+	for n := g.ShareOf(32, 1600); n > 0; n-- {
+		g.Emit("concurrent", fw.Pack(fw.U64(g.Rng.Uint64())))
+	}
+	// acceptance-set scan through Decode: targeted constants on every shard; 2^22-value chunks of the
+	// 2^30 checksum values: one random chunk per shard (quick), all 256 chunks (thorough)
+	g.Emit("acceptset", fw.Pack(fw.U64(g.Rng.Uint64()), []byte{0}, fw.U32(0)))
+	if g.Quick() {
+		g.Emit("acceptset", fw.Pack(fw.U64(g.Rng.Uint64()), []byte{1}, fw.U32(uint32(g.Rng.Intn(256)))))
+	} else {
+		for c := 0; c < 256; c++ {
+			if g.Own(c) {
+				g.Emit("acceptset", fw.Pack(fw.U64(uint64(g.Seed)), []byte{1}, fw.U32(uint32(c))))
+			}
+		}
 	}
 	list := bases(g.Seed, g.Pick(6, 100))
 	idx := 1 // shard 0 already has the syndrome case
